@@ -12,8 +12,8 @@
    (`lhs.to_i64().unwrap()` on u8/u16/u32/i64 never fails), so the model is stated on i64 values.
    `overflowing_add/sub/mul` return the wrapped value together with the overflow flag: [wrap64] is
    two's complement reduction into [-2^63, 2^63).  i64 `/` and `%` truncate toward zero: [Z.quot] and
-   [Z.rem].  `i64::MIN % -1` panics in Rust ("attempt to calculate the remainder with overflow") in
-   every profile: modelled as [RPanic], never totalised. *)
+   [Z.rem].  The modulo branch uses `wrapping_rem` (since fix 5836e7f): i64::MIN wrapping_rem -1 = 0,
+   which is also the exact remainder, so [Z.rem] models it for every i64 pair with a non-zero divisor. *)
 From Coq Require Import ZArith List Bool.
 From LV Require Import Model.QuerySpecList.
 Import ListNotations.
@@ -31,8 +31,8 @@ Definition wrap64 (z : Z) : Z := (z + two63) mod two64 - two63.
 
 Inductive arith_op := OpAdd | OpSub | OpMul | OpDiv | OpMod.
 
-(* (value, overflow flag) as returned by perform_checked, or a Rust panic *)
-Inductive checked_res := RVal (v : Z) (overflow : bool) | RPanic.
+(* (value, overflow flag) as returned by perform_checked *)
+Inductive checked_res := RVal (v : Z) (overflow : bool).
 
 Definition overflowing (z : Z) : checked_res := RVal (wrap64 z) (negb (in_i64 z)).
 
@@ -47,8 +47,7 @@ Definition perform_checked (op : arith_op) (a b : Z) : checked_res :=
       else RVal (Z.quot a b) false
   | OpMod =>
       if b =? 0 then RVal 1 true
-      else if (a =? i64_min) && (b =? -1) then RPanic      (* unchecked `%` *)
-      else RVal (Z.rem a b) false
+      else RVal (Z.rem a b) false                         (* lhs.wrapping_rem(rhs) *)
   end.
 
 (* the mathematically exact result; None when undefined (division by zero) *)
@@ -64,11 +63,11 @@ Definition exact_op (op : arith_op) (a b : Z) : option Z :=
 (* ---- whole-vector operators ------------------------------------------------------------------ *)
 
 (* outcome of executing one operator over a batch *)
-Inductive vec_res := VOk (vs : list Z) | VOverflow | VPanic.
+Inductive vec_res := VOk (vs : list Z) | VOverflow.
 
 (* loop body shared by the six operator shapes: [present] masks the overflow flag (None: no null
    map, i.e. the plain Checked* operators).  The loop pushes every result and only reports
-   Err(Overflow) after the last element, so a panic at any element wins over an earlier flag. *)
+   Err(Overflow) after the last element. *)
 Fixpoint checked_loop (op : arith_op) (pairs : list (Z * Z)) (present : option (list bool))
          (acc : list Z) (any : bool) : vec_res :=
   match pairs with
@@ -81,7 +80,6 @@ Fixpoint checked_loop (op : arith_op) (pairs : list (Z * Z)) (present : option (
         | Some (p :: ps) => (p, Some ps)
         end in
       match perform_checked op a b with
-      | RPanic => VPanic
       | RVal v o => checked_loop op rest present' (v :: acc) (any || (o && p))
       end
   end.
@@ -103,7 +101,7 @@ Definition nullable_checked_sv (op : arith_op) (s : Z) (r : list Z) (present : l
 
    A cell is [Some z] or NULL ([None]).  The engine evaluates an expression column-at-a-time; the
    query fails with Overflow iff some *present* row raises the flag.  Row by row this is: *)
-Inductive cell_res := COk (v : option Z) | COverflow | CPanic.
+Inductive cell_res := COk (v : option Z) | COverflow.
 
 Inductive aexpr :=
 | ACol (i : nat)
@@ -114,7 +112,6 @@ Definition cell_op (op : arith_op) (a b : option Z) : cell_res :=
   match a, b with
   | Some x, Some y =>
       match perform_checked op x y with
-      | RPanic => CPanic
       | RVal v true => COverflow
       | RVal v false => COk (Some v)
       end
